@@ -4,7 +4,7 @@
 //! U = grid x small columns x layouts; every array any stage returns is checked with the independent
 //! spec validator and `validate_full`, and is fed *as produced* to the next stage.
 use crate::kernels::{Kernel, Obs, kernels};
-use arrow_array::{Array, ArrayRef, RecordBatch};
+use arrow_array::{ArrayRef, RecordBatch};
 use arrow_schema::{DataType, Field, Schema};
 use std::sync::Arc;
 use vcore::serde_json::json;
